@@ -9,6 +9,7 @@ Ghost logs: `taken` (requests taken from requestors, as tagged), `handed` (accep
 -/
 import SeliumModel.Lemmas.ReqRepMore
 import SeliumModel.Lemmas.ReqRepWf
+import SeliumModel.Lemmas.System
 
 namespace Selium.Route
 open Selium.Sink
@@ -181,6 +182,27 @@ example : ((rrExec exRR).sinks.map (·.got)) = [[.msg none 2, .msg (some [("x", 
 
 end Selium.Route
 
+/-! ## Every request/reply topic of a running server (`Server/System.lean`) -/
+namespace Selium.Server
+open Selium.Route Selium.Sink
+
+/-- Inside any history of the whole server (streams opened under any names in any roles, any topic polled, shutdown)
+    the request/reply router of topic `n` is the single-router model run on the events addressed to `n`, so its
+    routing theorems hold there: no reply taken from `n`'s replier is lost, and each requestor's sink was handed
+    exactly the replies routed to its id, in order. -/
+theorem c02_every_topic_of_the_server (history : List SEvent) (n : Name) :
+    ((sysExec history).rr n).routed.map (·.1) ++ ((sysExec history).rr n).bufRep.toList = ((sysExec history).rr n).repTaken ∧
+    ∀ k ∈ ((sysExec history).rr n).sinks, k.got = ((sysExec history).rr n).routed.filterMap (deliveredTo k.id) := by
+  rw [sys_rr_is_router]; exact c02_replies_none_lost_each_to_its_requestor _
+
+/-- a reply on topic `n` reaches nobody on another topic: `n`'s requestors and repliers, and everything they are
+    handed, are untouched by the events of every other name -/
+theorem c02_no_other_topic_interferes (history : List SEvent) (n : Name) :
+    (sysExec history).rr n = (sysExec (history.filter (mentions n))).rr n :=
+  (sys_topic_independent n history).2.2
+
+end Selium.Server
+
 #print axioms Selium.Route.reqInv_init
 #print axioms Selium.Route.repInv_init
 #print axioms Selium.Route.rrExec_inv
@@ -192,3 +214,5 @@ end Selium.Route
 #print axioms Selium.Route.c02_bad_tag_discarded
 #print axioms Selium.Route.c02_routed_wf
 #print axioms Selium.Route.c02_honest_replies_reach_the_requestor_they_answer
+#print axioms Selium.Server.c02_every_topic_of_the_server
+#print axioms Selium.Server.c02_no_other_topic_interferes
